@@ -24,6 +24,7 @@ def run(ctx):
     ctx.do(DT.rule_lk1, [H.HYP], scope=ctx.scope(ENTRIES))
     ctx.do(CA.rule_c2, "ProjectiveObject", scope=ctx.scope(ENTRIES))
     ctx.do(S.rule_sh5, only=S.SH5_C14)
+    ctx.do(S.rule_hom1, parts=("hyp",), only=S.SH5_C14)
     ctx.do(SI.rule_mean1, [SI.HYP], scope=ctx.scope(ENTRIES))
     ctx.do(SI.rule_pt1, [SI.HYP], scope=ctx.scope(ENTRIES))
     ctx.do(u1, ENTRIES, min_functions=15)
